@@ -219,7 +219,9 @@ func VerifC05WRRDrift(n int, h int, T int) {
 // membership and health changes (add with a weight, remove, eject, recover,
 // pick), then a window of T picks over the then-fixed eligible set: every
 // backend stays within 2 * W_total / W_eligible of its proportional share,
-//   |count_i * W_eligible - t * w_i| <= 2 * W_total   for every t <= T,
+//
+//	|count_i * W_eligible - t * w_i| <= 2 * W_total   for every t <= T,
+//
 // where W_total is the largest total configured weight seen during the history.
 func VerifC05WRRHistory(h int, T int) {
 	lb := verifBareLB(2)
